@@ -291,7 +291,14 @@ type refClient struct {
 func (cl *refClient) Close() { cl.conn.Close() }
 
 // Upgrade switches to the encrypted session (after pair-verify M4).
-func (cl *refClient) Upgrade(shared []byte) { cl.sess = newRefControllerSession(shared) }
+func (cl *refClient) Upgrade(shared []byte) {
+	cl.sess = newRefControllerSession(shared)
+	// hc hands the connection over to the new cryptographer when its next Read starts; net/http's background read of
+	// the M3 request is aborted only just after M4 was flushed. A controller that sends its first encrypted byte within
+	// that window (microseconds) loses it to the still pending plaintext read (DESIGN.md, finding F18). Real controllers
+	// do not answer that fast; the reference controller waits a moment so that runs are deterministic.
+	time.Sleep(3 * time.Millisecond)
+}
 
 func (cl *refClient) send(b []byte) error {
 	if cl.sess != nil {
